@@ -281,6 +281,10 @@ class Scen:
                     m.append((f"c{c}.tx.piece", lambda c=c, k=ends[0]: self._deliver(c, k)))
                 if n > 20:
                     m.append((f"c{c}.tx.20", lambda c=c: self._deliver(c, 20)))
+                # up to the end of the next response head (the body then arrives glued to whatever follows it)
+                he = bytes(st.wire).find(b"\r\n\r\n")
+                if 0 <= he and he + 4 < n:
+                    m.append((f"c{c}.tx.head", lambda c=c, k=he + 4: self._deliver(c, k)))
             if self.extras.get(c) and not st.is_closing():
                 m.append((f"c{c}.extra", lambda c=c: self._extra(c)))
             elif self.closes.get(c) and not st.is_closing() and not self.extras.get(c):
@@ -342,6 +346,13 @@ class Scen:
                 self.P(kind, f"request {j} received the response stamped {stamp} (acquired {acqs}, deliveries {self.deliv}, results {self.results})")
             elif mode == "read" and body != (b"" if status == 204 else b"body-" + want.encode()):
                 beh = self.behs[j % len(self.behs)]
+                full = b"body-" + want.encode()
+                if beh == "eof" and full.startswith(body) and any(
+                        jj == j and self._delivered(c) < e
+                        for c in self.sent_map for (s, e, jj) in self.sent_map[c]):
+                    # a close-delimited body ends where the connection ended: the peer's bytes never all arrived
+                    # (reset injected mid-body), and what was read is a prefix of what it sent for this request
+                    continue
                 self.P("body-differs", f"request {j} ({beh}) read {body!r}")
         # keys never share a connection
         for c, (ct, st, peer) in enumerate(self.connector.created):
